@@ -1,2 +1,3 @@
 SPECIFICATION Spec
-INVARIANTS InEffectIsLastAccepted RejectedChangesNothing InEffectWellFormed UniverseDecided
+INVARIANTS InEffectIsLastAccepted RejectedChangesNothing InEffectWellFormed EmptyCoversNothing UniverseDecided
+PROPERTY Independence
